@@ -296,6 +296,10 @@ class Flow:
             for nm, val in base[2]:
                 if nm == n.attr:
                     return val
+        if base[0] == "tuple":
+            fs = self.__dict__.get("_nt_rows", {}).get(base) or ()
+            if n.attr in fs:
+                return base[1][fs.index(n.attr)]
         r = self._record_field(base, n.attr)
         return r if r is not None else ("attr", base, n.attr)
 
@@ -342,7 +346,14 @@ class Flow:
         return ("list", tuple(self.ev(e) for e in n.elts))
 
     def e_Tuple(self, n):
-        return ("tuple", tuple(self.ev(e) for e in n.elts))
+        v = ("tuple", tuple(self.ev(e) for e in n.elts))
+        fs = getattr(n, "_nt_fields", None)
+        if fs and len(fs) == len(v[1]):
+            # a namedtuple row written out by normalize.namedtuple_rows: remember the names of its positions, so that `row.field`
+            # read through a local (`h = _Hopping(thermal=.., tunnel=..)` .. `h.thermal`) is the element (see e_Attribute)
+            tab = self.__dict__.setdefault("_nt_rows", {})
+            tab[v] = tuple(fs) if tab.get(v, tuple(fs)) == tuple(fs) else ()
+        return v
 
     def e_Set(self, n):
         return ("set", tuple(self.ev(e) for e in n.elts))
